@@ -75,7 +75,8 @@ fn build(ctx: &AllCtx, shapes: u64, master: u64) -> (Vec<EFrame>, Vec<(usize, It
                 break;
             }
             let mut rng = Rng::new(crate::rng::run_seed(master, &c.label(), 0xC06 + s));
-            let knobs = if c.login.is_none() && c.name.contains("WARDEN") { Knobs { endless_len: Some([0usize, 1, 5, 0x8000][(s % 4) as usize]), ..Knobs::default() } } else { Knobs::default() };
+            // one candidate per login message has its arrays at the limits of a u8 count (255 / 256 elements)
+            let knobs = if c.login.is_none() && c.name.contains("WARDEN") { Knobs { endless_len: Some([0usize, 1, 5, 0x8000][(s % 4) as usize]), ..Knobs::default() } } else if c.login.is_some() && s == 1 { Knobs { big_array_one_in: 1, size_budget: 200_000, ..Knobs::default() } } else { Knobs::default() };
             let Some(f) = encode_case(ctx, c, &mut rng, &knobs) else { continue };
             let key = format!("{}|{}", f.shape, f.plain.len());
             if !seen.insert(key) {
@@ -85,6 +86,9 @@ fn build(ctx: &AllCtx, shapes: u64, master: u64) -> (Vec<EFrame>, Vec<(usize, It
             if c.name.contains("WARDEN") {
                 // the body length class is what matters for the header/body readers
                 tokens.push(format!("len={}", f.plain.len()));
+            }
+            if knobs.big_array_one_in > 0 && f.plain.len() > 255 {
+                tokens.push("array:255+".to_string());
             }
             let adds = tokens.iter().any(|t| !seen_tokens.contains(t));
             if kept > 0 && !adds && s < shapes * 10 {
